@@ -158,11 +158,15 @@ TotalHelpers == {H("Num", w, 0) : w \in {1, 2, 4, 8}} \cup {H("Bool", 0, 0)}
                 \cup {H(k, w, 0) : k \in {"BytesSz", "ObjSz", "Peek"}, w \in PrefixWidths}
                 \cup {H("Coll", w, e) : w \in PrefixWidths, e \in {1, 2}}
 
+\* the step machine is explored for one representative of helpers with the same request sequence
+\* (ObjSz = BytesSz, Obj = Bytes; an 8-byte prefix never completes within L <= 6): the table still
+\* carries every helper of TotalHelpers
+MCHelpers == {x \in TotalHelpers : x.h \notin {"ObjSz", "Obj"} /\ (x.a = 8 => x.h = "BytesSz")}
 None == <<"none">>
 Init == /\ pos = 0 /\ fields = <<>> /\ buf = <<>> /\ st = "run"
         /\ IF Mode = "rt"
              THEN IsCase(h, v) /\ \E t \in Tails : src = Enc(h, v) \o t
-             ELSE h \in TotalHelpers /\ v = None /\ src \in Strs(L, Alphabet)
+             ELSE h \in MCHelpers /\ v = None /\ src \in Strs(L, Alphabet)
 Spec == Init /\ [][Next]_vars
 
 -------------------------------------------------------------------------------
